@@ -336,7 +336,24 @@ func init() {
 				}},
 				{"gap.start <= gap.end", func(i *ssa.If) (bool, int) {
 					b, ok := i.Cond.(*ssa.BinOp)
-					return ok && b.Op == token.GTR && IsLoadOf(gs)(b.X) && IsLoadOf(ge)(b.Y), 0
+					if !ok {
+						return false, 0
+					}
+					// start > end, or end < start: the true side is the failing one
+					if b.Op == token.GTR && IsLoadOf(gs)(b.X) && IsLoadOf(ge)(b.Y) {
+						return true, 0
+					}
+					if b.Op == token.LSS && IsLoadOf(ge)(b.X) && IsLoadOf(gs)(b.Y) {
+						return true, 0
+					}
+					// start <= end, or end >= start: the false side is the failing one
+					if b.Op == token.LEQ && IsLoadOf(gs)(b.X) && IsLoadOf(ge)(b.Y) {
+						return true, 1
+					}
+					if b.Op == token.GEQ && IsLoadOf(ge)(b.X) && IsLoadOf(gs)(b.Y) {
+						return true, 1
+					}
+					return false, 0
 				}},
 			}
 			// anchorIn: the instruction of psa that stands for x (x itself, or the call that leads to the private helper holding x)
